@@ -358,6 +358,31 @@ class SchemaGen(object):
         self.field_pool[name] = f
         return f
 
+    def implementation_variant(self, f):
+        """An implementing object may declare other defaults for the interface field's optional
+        arguments and extra optional arguments (only when features['impl_variants'])."""
+        import copy
+
+        if not self.features.get("impl_variants") or not self.chance(0.4):
+            return f
+        g = copy.copy(f)
+        g.args = []
+        for a in f.args:
+            b = copy.copy(a)
+            if a.type[0] != "nonnull" and self.chance(0.5):
+                d = self.input_value_for(a.type, depth=2)
+                b.default = d
+            elif a.has_default and self.chance(0.3):
+                d = self.input_value_for(a.type, depth=2)
+                if d is not None or a.type[0] != "nonnull":
+                    b.default = d
+            g.args.append(b)
+        if self.chance(0.5):
+            names = list(BUILTIN_SCALARS) + [x.name for x in self.s.types.values() if x.kind == "enum"]
+            t = named(self.rng.choice(names))
+            g.args.append(SInput("%s_extra" % f.name, t, self.input_value_for(t, depth=2)))
+        return g
+
     def gen_outputs(self):
         s, rng = self.s, self.rng
         leafs = list(BUILTIN_SCALARS) + [t.name for t in s.types.values() if t.kind in ("scalar", "enum")]
@@ -380,7 +405,7 @@ class SchemaGen(object):
                     o.interfaces.append(i.name)
                     for f in i.fields:
                         if not o.field(f.name):
-                            o.fields.append(f)
+                            o.fields.append(self.implementation_variant(f))
             for _ in range(rng.randint(1, 4)):
                 o.fields.append(self.gen_field(o, out_names))
             # share some pooled fields between objects (same signature)
